@@ -10,7 +10,8 @@ EXPLANATION = (
     "Decided from the syntax tree of robotpy_ext/misc/crc7.py: C20.O2 loop shape - crc7 initialises one accumulator to the constant 0, "
     "makes a single in-order pass over its argument (plain for loop, no break/continue/else, no slicing or reordering), returns the "
     "accumulator, and no return statement bypasses the pass; C20.O3 the result does not depend on module state that crc7 itself "
-    "writes (no history dependence); C20.O4 dataflow - symbolic interpretation of the loop body shows that the data byte and the running "
+    "writes, and after a call that raises part-way (a non-byte element) the next result equals that of a fresh interpreter (no history "
+    "dependence); C20.O4 dataflow - symbolic interpretation of the loop body shows that the data byte and the running "
     "checksum enter the new checksum only through (byte XOR checksum); C20.O1 value-set case split - for each of the 256 values of that "
     "single abstract variable the loop body (constant-folded through the lookup table in the syntax tree) yields the eight-step "
     "bit-serial CRC of that value with polynomial 0x91.  O1+O4 say the body is the reflected CRC byte step; with O2 the equality with "
